@@ -89,6 +89,14 @@ CHECKS = {
         "only instance in production.",
    technique="Lean 4 invariant/refinement proofs + differential check + strace-regenerated syscall facts + crash injection",
    ref="DESIGN.md section 5 C16"),
+ "C18": dict(engine="paths (+api when integrated)",
+   text="String/decision part proved in Lean 4: full specification of scanETag, etagMatch ⇔ the RFC 7232 reading (h ≠ \"\" and (h = e, or an element of the "
+        "well-formed prefix of the comma list is * with e ≠ \"\" or is byte-equal to e)), and the 412/304/continue table of checkPreconditions, for all strings; the "
+        "model runs against the real functions exhaustively over a 7-symbol alphabet plus random headers on every check.  The two-phase exclusivity of conditional "
+        "writers and the atomic replacement of group files are added by the api engine (see C16 for the generic safeReplace_atomic theorem)",
+   note=TB + "Until the api engine is integrated the interleaving/atomic-file half of C18 is not claimed by this check.",
+   technique="Lean 4 proof (etag grammar and precondition table) + exhaustive small-alphabet differential check",
+   ref="DESIGN.md section 5 C18"),
  "C19": dict(engine="paths",
    text="Lean 4 proofs over models of path.Clean (complete characterisation: the byte loop equals component-level lexical resolution, for every string), "
         "validGroupName/validUsername (accept exactly the safe names), parseGroupName (components always safe; agrees with validGroupName), getDescriptionFile "
